@@ -5,7 +5,10 @@ from urllib.parse import quote_plus, unquote
 
 from vf.engine import assume, cover
 from vf.query import Q
-from vf import stubs, stubs_c18
+from vf import instrument
+
+instrument.install("ombott")     # scheduling points in front of every ombott statement (used by the stmt/ family only)
+from vf import stubs, stubs_c18, stmtsched    # noqa: E402
 
 from ombott.request_pkg.request import Request
 
@@ -512,9 +515,80 @@ def make_short_read():
     return q
 
 
+# ---------------------------------------------------------------- two requests decoded at once (another thread)
+STMT_REQS = {
+    # name: (method, query string, urlencoded body or None, pairs of query, pairs of forms)
+    "post": ("POST", "client=A&t=1", "name=J%C3%BCrgen+%26+S%C3%B8n&tag=a%2Bb&tag=100%25&tag=&k+e%3Dy=x%3D1%26y%3D2",
+             [("client", "A"), ("t", "1")],
+             [("name", "J\u00fcrgen & S\u00f8n"), ("tag", "a+b"), ("tag", "100%"), ("tag", ""), ("k e=y", "x=1&y=2")]),
+    "get": ("GET", "q=x+y&q=z&e=&client=B", None, [("q", "x y"), ("q", "z"), ("e", ""), ("client", "B")], []),
+    "post2": ("POST", "", "a=1&b=2&a=3", [], [("a", "1"), ("b", "2"), ("a", "3")]),
+}
+
+
+def stmt_decode(name, order):
+    """-> callable that builds the request of one client and reads its views in the given order; returns the pairs"""
+    method, qs, body, q_pairs, f_pairs = STMT_REQS[name]
+
+    def pairs(d):
+        out = []
+        for k in d:
+            vals = dict.__getitem__(d, k)
+            out += [(k, x) for x in (vals if isinstance(vals, list) else [vals])]
+        return sorted(out)
+
+    def call():
+        stubs_c18.use_unquote(unquote)
+        env = {"REQUEST_METHOD": method, "PATH_INFO": "/", "QUERY_STRING": qs, "wsgi.input": stubs.SymStream(0, [], data=b"")}
+        if body is not None:
+            raw = body.encode("latin1")
+            env.update({"CONTENT_TYPE": "application/x-www-form-urlencoded", "CONTENT_LENGTH": str(len(raw)),
+                        "wsgi.input": stubs.SymStream(len(raw), [3], data=raw)})
+        rq = Request(env)
+        got = {}
+        for view in order:
+            got[view] = pairs(getattr(rq, view))
+        return got
+    want = {"query": sorted(q_pairs), "forms": sorted(f_pairs), "params": sorted(q_pairs + f_pairs)}
+    return call, {v: want[v] for v in order}
+
+
+def make_stmt(n0_name, n1_name, order):
+    main, want0 = stmt_decode(n0_name, order)
+    other, want1 = stmt_decode(n1_name, order)
+    stubs.install_sim_threads()
+    assert main() == want0 and other() == want1, (main(), want0, other(), want1)
+    n0 = stmtsched.count(main)
+
+    def judge(k):
+        r0, st = stmtsched.run(k, main, other)
+        if not st.ran:
+            return "statement %d of %d not reached" % (k, n0)
+        cover("preempted")
+        if r0 != want0:
+            return ("client %s decoded while, in front of statement %d of %d, another thread decoded client %s: got %r, sent %r"
+                    % (n0_name, k, n0, n1_name, r0, want0))
+        if st.result != want1:
+            return "the other thread's request (%s, decoded in front of statement %d of the %s request): got %r, sent %r" % (
+                n1_name, k, n0_name, st.result, want1)
+        return None
+    return stmtsched.bits_query(n0, judge), n0
+
+
 def queries(tier):
     T = tier == "thorough"
     out = []
+    for a, b, order in ([("post", "get", ("forms", "params", "query")), ("get", "post2", ("query", "params"))] if not T else
+                        [("post", "get", ("forms", "params", "query")), ("get", "post2", ("query", "params")),
+                         ("post", "post2", ("params", "forms")), ("post2", "post", ("query", "forms", "params")),
+                         ("get", "get", ("params", "query", "forms"))]):
+        fn, n0 = make_stmt(a, b, order)
+        out.append(Q("stmt/%s-%s/%s" % (a, b, "-".join(order)), fn,
+                     "thread T0 reads %s of the concrete request %r; in front of statement k of the ombott code it executes "
+                     "(every k in 1..%d, scheduling points inserted from the current source) simulated thread T1 builds the "
+                     "request %r and reads the same views completely; LIFO, one preemption"
+                     % (", ".join(order), STMT_REQS[a][:3], n0, STMT_REQS[b][:3]),
+                     timeout=300, expect_cover=["preempted"], family="stmt", config={"t0": a, "t1": b, "statements": n0}))
 
     def scan(view, lo, hi, decoder, timeout, prefix="", no_plus=False, cov=("repeated-key", "several-pairs")):
         tag = "len%d" % hi if lo == hi else "len%d-%d" % (lo, hi)
